@@ -39,6 +39,30 @@ P = {
  "C15": ("hbar-power type system (abstract interpretation over powers of hbar) + alias-mutation rule",
          "Decides: a type system whose types are powers of hbar over ops.py, the state classes, the bosonic circuit and the apps that call thewalrus: every argument of an hbar-free backend call has power 0, operation parameters stored in self.p and constructor arguments of decomposition products have the documented power, _mu/_cov/_mus/_covs and declared returns (means 1/2, cov 1, quad_expectation (1/2,1), mean_photon 0, wigner -1) agree, no sum/comparison mixes powers, every thewalrus call that receives hbar-scaled data passes hbar=<hbar source>; results that may alias internal state are not rescaled in place. A wrong power of hbar is wrong for every hbar != 2 and invisible at 2. Does NOT decide constant factors (2 vs sqrt 2).",
          "hbar-power declarations in sfa/rules/common_hbar.py (each from the documented formula)"),
+ "C12": ("CFG dominance of validation calls and raising guards; op-clone field coverage",
+         "Decides: Program.compile cannot return a program for a device with gate-parameter ranges without validate_gate_parameters(compiled); assert_modes precedes decomposition; validate_gate_parameters reaches device.validate_parameters with the parameters matched from the layout and turns a template mismatch into CircuitError; Device.validate_parameters raises for unknown names and out-of-range scalar / array values; Range is two-sided; the mode-count limits and every structural precondition of the X-series compilers (even modes, all measured, S2 placement and phases, passive, bipartite, symmetric, topology, fixed parameters) are raising CircuitError guards; re-instantiated measurements keep select / dark counts (known finding). Does NOT decide layout isomorphism, range membership of computed values or equality of photon statistics (graph / numeric).",
+         "guards are recognised by the quantities their tests mention (see sfa/rules/c12.py)"),
+ "C13": ("op-clone field coverage; mod-set inclusion (undo completeness); paired-restore on the CFG; order taint",
+         "Decides: unrolling keeps dagger / select / dark counts of the template operations and substitutes the value of the current time bin into a copy of the parameter list; every attribute modified by unroll / space_unroll is restored by roll or is a listed cache (known finding: the register maps); cached unrolled circuits are reused only for the same number of shots; the lock flag is restored on every normal and exceptional path; measured_modes is sorted and reshape_samples receives the program's attributes in declared order. Does NOT decide equality of joint states between unrolling strategies or the sample reshaping arithmetic (numeric on runtime shapes).",
+         "cache table in sfa/rules/c13.py"),
+ "C14": ("field coverage of the writers; key / name table agreement between writers and readers",
+         "Decides: each writer (to_blackbird, to_xir, generate_code) reads p, select, dark_counts, dagger and the mode indices of every command (known findings: dagger by none, select / dark counts by generate_code); every option key written by to_xir is read under the same name and vice versa; Blackbird target / shots / cutoff agree; every operation class a writer can emit is loadable by name (known findings); q<k> symbols are resolved by mode index. Does NOT decide semantic equality of the reloaded program or the behaviour of the Blackbird / XIR libraries.",
+         "ops.__all__ is reconstructed from the class groups it is built from"),
+ "C16": ("forward parameter flow (selecting vs counting uses); alias-mutation; hbar-power typing; label derivation",
+         "Decides: in every state-class method the mode / modes argument selects the data (reaches a subscript, a data-selecting call or controls the construction of the index expression) instead of only being counted; results that may alias internal arrays are not modified in place; the state-class formulas are hbar-power consistent with the declared slots and returns; state() labels derive from the selected active mode indices. Does NOT decide cross-method numeric identities.",
+         "hbar-power declarations; NONSEL list of counting / validating calls"),
+ "C17": ("CFG dominance of raising precondition guards, with delegation through calls that pass the input on unchanged",
+         "Decides only the last sentence of the property: every public decomposition routine establishes each documented precondition class (square, symmetric, unitary, even, positive definite, symplectic, minimum size) with a raising ValueError guard that dominates every return, directly or through a routine it hands its input to. Reconstruction accuracy, structure of the factors and degenerate spectra are numeric and NOT decided.",
+         "REQUIRED precondition table from the docstrings"),
+ "C18": ("field coverage of the comparison routines; CFG guard (length) ; relation shape",
+         "Decides: Program.__eq__ compares class, parameters, modes and dagger of both commands and every computed flag reaches the verdict; the circuits' lengths are compared before zipping; program_equivalence matches nodes on name, parameters, dagger and wire attribute, keeps the identity shortcut and prepares both programs alike (known finding: wires of generic operations are the constant 0). Does NOT decide completeness (equivalent programs reported inequivalent) or the commuting-reorder clause (graph isomorphism semantics).",
+         "networkx is_isomorphic is trusted"),
+ "C19": ("numeric-kind lattice (integer-exact vs float) on return derivations; index-space kinds per reaching definition; guard dominance and taint on clique growth; order taint",
+         "Decides: orbit / event cardinalities are built from integer-exact operations only; every index obtained by searching / sampling positions of an array is used only on arrays aligned with the same base sequence (uniform and weighted branches separately); grow / swap validate their input before modifying it, add only nodes from c_0 / c_1 of the current clique, recompute candidates; c_0 / c_1 / is_clique keep their defining tests; node lists are sorted, never in set order. Does NOT decide densities or search quality (numeric / random).",
+         "alignment inference of sfa/indexspace.py"),
+ "C20": ("hbar-power typing of thewalrus call sites; passive-gate table; per-mode index agreement and operator order",
+         "Decides: A_to_cov scales with sf.hbar and every thewalrus call that receives hbar-scaled data passes hbar (functions with an hbar parameter found by parsing the installed library source); TimeEvolution emits only photon-number conserving gate classes, one rotation per mode with that mode's angle, sandwiched between Interferometer(Ul.T) and Interferometer(Ul); VibronicTransition applies U1, S(r), U2, D(alpha) in the Doktorov order with per-mode index agreement and gbs_params returns the SVD factors in the consumed order. Does NOT decide gradients, normalisation or Duschinsky faithfulness (numeric).",
+         "PASSIVE gate table"),
 }
 def main():
     m = json.load(open(os.path.join(V, "MANIFEST.json")))
